@@ -258,6 +258,22 @@ def m_chain(it, recv, args, e, mod, discard):
     return I.IterV(itertools.chain(it.iterate(recv), it.iterate(args[0])))
 
 
+@method("any")
+def m_any(it, recv, args, e, mod, discard):
+    for x in it.iterate(recv):
+        if it.truth(it.call_value(args[0], [x])):
+            return True
+    return False
+
+
+@method("all")
+def m_all(it, recv, args, e, mod, discard):
+    for x in it.iterate(recv):
+        if not it.truth(it.call_value(args[0], [x])):
+            return False
+    return True
+
+
 @method("fold")
 def m_fold(it, recv, args, e, mod, discard):
     acc = args[0]
